@@ -32,6 +32,7 @@ func module() pipe.Tree {
 	a.WriteString("// Sub has only a sub-option.\n// +gengo:g2:opt=1\ntype Sub struct{ X int }\n\ntype Alias = T\n")
 	return pipe.Tree{
 		"go.mod":                 pipe.GoMod(modPath, "1.24"),
+		"root.go":                "// Package test sits in the module root and imports nothing of the module.\n// +gengo:deepcopy\npackage test\n\n// Root doc\ntype Root struct{ V []int }\n",
 		"a/a.go":                 a.String(),
 		"a/zz_generated.old1.go": "package a\n\nvar StaleOne = 1\n",
 		"a/zz_generated.old2.go": "package a\n\nvar StaleTwo = 1\n",
@@ -200,6 +201,42 @@ func checkRuns(c *core.Ctx, cs Case) {
 	c.Nontrivial(fmt.Sprint("runs", cs))
 }
 
+// histories of consecutive runs must not depend on the order entrypoints are listed in: after run k
+// every output INCLUDING gengo.sum is compared between the orders
+func checkRunsAcrossOrders(c *core.Ctx, orders [][]string, runs int) {
+	c.Eval(1)
+	var ref []map[string]string
+	for oi, entry := range orders {
+		dir := pipe.TempDir("c04o")
+		if err := pipe.WriteTree(dir, module()); err != nil {
+			c.Internal("%v", err)
+			os.RemoveAll(dir)
+			return
+		}
+		for k := 0; k < runs; k++ {
+			o := pipe.Exec(spec(dir, entry, true))
+			c.Trans(1)
+			if !o.OK() {
+				c.Fail("", Case{Entry: entry, All: true, Runs: runs}, "run %d failed: load=%q err=%q panic=%q", k+1, o.LoadErr, o.Err, o.Panic)
+				os.RemoveAll(dir)
+				return
+			}
+			t, _ := pipe.ReadTree(dir)
+			cur := outputs(t)
+			if oi == 0 {
+				ref = append(ref, cur)
+			} else if d := diffFiles(ref[k], cur); d != "" {
+				c.Fail("", Case{Entry: entry, All: true, Runs: runs}, "after run %d the outputs for entrypoint order %v differ from those for order %v:\n%s", k+1, entry, orders[0], d)
+				os.RemoveAll(dir)
+				return
+			}
+		}
+		os.RemoveAll(dir)
+	}
+	c.State("orders-x-runs")
+	c.Nontrivial(fmt.Sprint("orders", orders))
+}
+
 func run(c *core.Ctx) {
 	sites := seamctl.Sites("")
 	c.Bound("seam_available", seamctl.Available())
@@ -232,8 +269,8 @@ func run(c *core.Ctx) {
 		c.Cap("built without the seam overlay: map iteration order is Go's own random order, not owned")
 	}
 	// (ii) entrypoint orders and spellings
-	spell := []string{"./a", "./b", "./c", modPath + "/a", modPath + "/b"}
-	pkgOf := map[string]string{"./a": "a", "./b": "b", "./c": "c", modPath + "/a": "a", modPath + "/b": "b"}
+	spell := []string{"./a", "./b", "./c", modPath + "/a", "."}
+	pkgOf := map[string]string{"./a": "a", "./b": "b", "./c": "c", modPath + "/a": "a", modPath + "/b": "b", ".": "."}
 	n := 0
 	core.Explore(c, core.ExploreOpts{Bound: -1}, func(ch *core.Chooser, _ bool) {
 		var entry []string
@@ -258,8 +295,13 @@ func run(c *core.Ctx) {
 		}
 		sort.Strings(ps)
 		for _, p := range ps {
+			if p == "." {
+				refEntry = append(refEntry, ".") // listed last in the reference execution
+				continue
+			}
 			refEntry = append(refEntry, "./"+p)
 		}
+		sort.SliceStable(refEntry, func(i, j int) bool { return refEntry[i] != "." && refEntry[j] == "." })
 		for _, all := range []bool{false, true} {
 			if !c.Next() {
 				continue
@@ -279,8 +321,14 @@ func run(c *core.Ctx) {
 					continue
 				}
 				checkRuns(c, Case{Entry: entryAll, All: all, Runs: 3, Child: child, Def: d})
+				if d == 0 {
+					checkRuns(c, Case{Entry: []string{".", "./a", "./b", "./c"}, All: all, Runs: 4, Child: child})
+				}
 			}
 		}
+	}
+	if c.Next() {
+		checkRunsAcrossOrders(c, [][]string{{".", "./a", "./b", "./c"}, {"./a", "./b", "./c", "."}, {"./c", ".", "./b", "./a"}, {modPath, "./a", "./c"}}, 3)
 	}
 	c.Sample(Case{Entry: []string{modPath + "/b", "./a", "./a"}, All: true})
 	c.Sample(Case{Entry: entryAll, All: true, Policy: map[string]int{"pkg/gengo/context.go:363": 1}})
@@ -292,12 +340,20 @@ func replay(c *core.Ctx, raw json.RawMessage) {
 		c.Internal("bad case: %v", err)
 		return
 	}
+	if cs.Runs > 0 && len(cs.Entry) > 0 && cs.All && !cs.Child && cs.Def == 0 && len(cs.Policy) == 0 && (cs.Entry[0] != "./a" || len(cs.Entry) != 3) {
+		checkRunsAcrossOrders(c, [][]string{{"./a", "./b", "./c", "."}, cs.Entry}, cs.Runs)
+		return
+	}
 	if cs.Runs > 0 {
 		checkRuns(c, cs)
 		return
 	}
 	set := map[string]bool{}
 	for _, e := range cs.Entry {
+		if e == "." {
+			set["."] = true
+			continue
+		}
 		set[strings.TrimPrefix(strings.TrimPrefix(e, modPath+"/"), "./")] = true
 	}
 	var ps, refEntry []string
@@ -306,7 +362,13 @@ func replay(c *core.Ctx, raw json.RawMessage) {
 	}
 	sort.Strings(ps)
 	for _, p := range ps {
+		if p == "." {
+			continue
+		}
 		refEntry = append(refEntry, "./"+p)
+	}
+	if set["."] {
+		refEntry = append(refEntry, ".")
 	}
 	checkAgainst(c, cs, fmt.Sprint(ps, cs.All), refEntry)
 }
@@ -314,7 +376,7 @@ func replay(c *core.Ctx, raw json.RawMessage) {
 func init() {
 	core.Register(&core.Prop{
 		ID: "C04", Level: "model_checking", Run: run, Replay: replay,
-		Rule: "one order-sensitive module (package-level T + type parameter T + function-local T, 15 documented types, a type switched off that keeps a sub-option, aliases, 3 packages importing each other, 3 stale outputs, 8 imports with clashing last segments) with 6 generators (stateful scripted with Defer, second scripted, map-literal/multi-argument template generator, runtimedoc, deepcopy, defaulter). (i) every map-iteration policy vector over all range-over-map sites of the library with <=2 (thorough <=3) deviating sites x 3 non-default policies, plus each policy applied globally; (ii) every entrypoint sequence of length <=3 over 5 spellings (relative dir and import path, duplicates) x All on/off, compared inside its group of equal package sets; (iii) 3 consecutive runs in-process (each global policy) and with a fresh process per run. Oracle: all generated files and gengo.sum byte-identical to the reference execution, identical callback sequence, later runs change no generated file. Every execution is non-trivial; states = distinct (group, policy) classes",
+		Rule: "one order-sensitive module (package-level T + type parameter T + function-local T, 15 documented types, a type switched off that keeps a sub-option, aliases, 3 packages importing each other, 3 stale outputs, 8 imports with clashing last segments) with 6 generators (stateful scripted with Defer, second scripted, map-literal/multi-argument template generator, runtimedoc, deepcopy, defaulter). (i) every map-iteration policy vector over all range-over-map sites of the library with <=2 (thorough <=3) deviating sites x 3 non-default policies, plus each policy applied globally; (ii) every entrypoint sequence of length <=3 over 5 spellings (relative dirs, an import path, the module-root package '.', duplicates) x All on/off, compared inside its group of equal package sets; (iii) 3 consecutive runs in-process (each global policy) and with a fresh process per run, and 3-run histories under 4 entrypoint orders (root package first / last / in the middle / by import path) whose outputs incl. gengo.sum are compared after every run. Oracle: all generated files and gengo.sum byte-identical to the reference execution, identical callback sequence, later runs change no generated file. Every execution is non-trivial; states = distinct (group, policy) classes",
 		Assumptions: []string{
 			"map orders are bounded to ascending/descending/rotations per site with a bounded number of deviating sites, not all n! orders",
 			"sync.Map.Range in pkgExecute (order in which finished files are written) is not owned: files are independent of one another",
